@@ -218,6 +218,26 @@ def gen_prog(rng, cls):
         prog = [cfg0, "configure"] + rng.choice([[], ["start", "stop"], ["start", "abort"]]) + [other, "configure"] + \
                rng.choice([["start", "stop"], ["state"], ["start", "abort"], []]) + rng.choice([[cfg0, "configure", "start", "stop"], [other, "configure", "start", "stop"], []]) + \
                rng.choice([["shutdown"], []])
+    elif cls == "avgf32poll":
+        # C08: as avgf32, but the client lets the acquisition end by itself and polls the state instead of stopping at once
+        fb4 = R.frame_bytes(w, h, 4)
+        ring = rng.choice([fb4 * 2 + 16, fb4 * 3 + 8, fb4 * 6])
+        prog = ["cfg 0 cam=0 sto=2 w=%d h=%d type=4 n=%d avg=%d" % (w, h, rng.choice([3, 5]), rng.choice([2, 3])), "configure", "start",
+                "sleep %d" % rng.randrange(40, 80), "state", rng.choice(["abort", "stop"]), cfg0, "configure", "start", "stop"]
+    elif cls == "setfail":
+        # C11 / C08: a re-configuration switches stream 0 to another storage that opens but rejects the settings; the stream must not
+        # be left with a handle to a device that was closed on the way (the replacement is closed or kept, the old one is gone)
+        other = "cfg 0 cam=0 sto=5 w=%d h=%d type=%d n=%d" % (w, h, t, n)
+        faults = ["stosetfail 5 %d" % rng.choice([1, 1, 2])]
+        prog = [cfg0, "configure"] + rng.choice([[], ["start", "stop"]]) + [other, "configure", "state"] + \
+               rng.choice([[other, "configure", "start", "stop"], [cfg0, "configure", "start", "stop"], ["start", "stop"], []]) + rng.choice([["shutdown"], []])
+    elif cls == "stopartial":
+        # C09: the storage fails in the middle of a multi-frame packet and says how much it had taken (a transient fault): the failure
+        # must still end the acquisition — nothing is offered to the device after a failed append
+        faults = ["sto 2 %d" % rng.randrange(0, 3), "stoconsumed"]
+        ring = fb * rng.choice([6, 9]) + 8
+        prog = [cfg0.replace("n=%d" % n, "n=%d" % rng.choice([12, 30, 1000])) + " delay=%d" % rng.choice([2, 4]), "configure", "start",
+                rng.choice(["stop", "abort", "sleep 40"]), "stop", cfg0, "configure", "start", "stop"]
     elif cls == "api":
         return gen_api(rng)
     else:
